@@ -642,6 +642,18 @@ func init() {
 				b.docs[c.ID] = ds
 			}
 		}
+		if path, ok := args["faultfile"]; ok {
+			// replay: the source-invalid documents of the file instead of generated ones
+			var fs []Fault
+			for _, l := range readLines(path) {
+				if v, err := parseJV([]byte(l)); err == nil {
+					fs = append(fs, Fault{Kind: args["faultkind"], Path: args["faultpath"], Doc: v})
+				}
+			}
+			for _, c := range b.cases {
+				b.fault[c.ID] = fs
+			}
+		}
 		stats := map[string]int{}
 		c12LabRows(out, b.lab, b.cases, b.docs, b.fault, stats)
 		fmt.Fprintf(out, "-\tstats %v timings=%s constructs=%v docvariants=%v\tok\n", stats, fmtTimings(b.lab.Timings), b.hist, b.dhist)
